@@ -22,6 +22,9 @@ type Loc struct {
 	// side state for sync primitives living at this location
 	Mu   *MutexState
 	Once *OnceState
+	// allocation info for the lockset analysis (objects created while the access log is on)
+	AllocG int
+	Fresh  bool
 }
 
 type MutexState struct {
@@ -147,6 +150,10 @@ func isNilPtr(p PtrVal) bool { return p.IsNil != nil && p.IsNil.IsTrue() }
 func (st *State) newLoc(t types.Type, name string) *Loc {
 	st.locCounter++
 	l := &Loc{T: t, Name: name, ID: st.locCounter}
+	if st.logAccess && st.cur < len(st.gs) {
+		l.Fresh = true
+		l.AllocG = st.gs[st.cur].ID
+	}
 	switch u := t.Underlying().(type) {
 	case *types.Struct:
 		l.Elems = make([]*Loc, u.NumFields())
